@@ -112,7 +112,8 @@ ObsDtPositive == obs.pos
 ObsDtAtMostMax == obs.lemax
 ObsNonAdaptiveDtIsInit == ~Adaptive => obs.isinit
 ObsNoScreeningInducedZero == ~Screening => obs.azero
-ObsFrameSelfConsistent == (obs.frame /\ Screening) => obs.mism <= 3 * 1000     \* within 3 x tolerance
+FrameTolMultiple == 3        \* "a modest multiple of the tolerance" (DESIGN.md 5/C13: mismatch <= 3 tol)
+ObsFrameSelfConsistent == (obs.frame /\ Screening) => obs.mism <= FrameTolMultiple * 1000
 
 Accepted == (l = Len(T.ev) + 1 /\ pc \in {"begin", "dead"}) => PrintT(<<"ACCEPT", tid>>)
 Progress == PrintT(<<"AT", tid, l>>)
